@@ -131,6 +131,10 @@ def run(st, tier, seed):
         pre = [[rng.randint(0, 4), rng.choice(CODES)] for _ in range(rng.randint(0, 2))]
         post = [[rng.randint(0, 4), rng.choice(CODES)] for _ in range(rng.randint(0, 2))]
         w = rng.randint(0, 5)
+        if i % 6 == 5:
+            # long regions: declared lengths beyond the small numbers (250 … 1200 nt, both sides of 256)
+            w = rng.choice([250, 251, 252, 253, 254, 255, 256, 257, 300, 1000, rng.randint(250, 1200)])
+            res.count("statement:long-region")
         wc = rng.choice(CODES)
         fixed = sum(m for m, _ in pre + post)
         # other items of the statement: named sequences, nested and starred super-sequences, domains(), plain quoted regions
